@@ -35,7 +35,7 @@ static uintptr_t xv_pass(uintptr_t x) { return x; }
 #define XV_A_LOAD(a, o) (XV_ENV(), xv_clock++, XV_ON_LOAD(&(a), (a), (o)), xv_pass((a)))
 /* an obligation that, once stated, may be used by the obligations that follow it (it is reported on its own if it fails) */
 #define OBL(name, cond) { _Bool xv_c_ = (cond); XV_OBL(name, xv_c_); XV_ASSUME(xv_c_); }
-#define MAXSEQ ((uint64_t)1 << 62)     /* assumption: _seq does not wrap */
+#define MAXSEQ (UINT64_MAX - 15)       /* assumption: _seq does not wrap; every other 64-bit value is covered */
 
 struct seqlock; struct seqlock* g_sl;  /* the object under test (monitors and the environment address it through this) */
 
@@ -183,7 +183,7 @@ static void havoc_shared(void) {
   g_rd_count = nondet_uint(); g_wr_count = nondet_uint(); g_rd_ver = nondet_u64();
   seq_load_weak = nondet_bool(); fence_missing = nondet_bool(); pending_data_loads = nondet_bool(); lock_mine = nondet_bool(); guar_bad = nondet_bool();
   rel_weak = nondet_bool(); cas_weak = nondet_bool(); rel_fence_since = nondet_bool(); wfence_missing = nondet_bool();
-  xv_clock = nondet_u64(); XV_ASSUME(xv_clock < MAXSEQ);
+  xv_clock = nondet_u64(); XV_ASSUME(xv_clock < ((uint64_t)1 << 62));   /* the ghost event clock does not wrap */
   cas_ok_clock = nondet_u64(); unlock_clock = nondet_u64(); rd_clock = nondet_u64(); st_clock = nondet_u64(); fn_clock = nondet_u64();
 #ifdef XV_INT
   env_writes = nondet_uint();
